@@ -8,6 +8,18 @@ import sys
 ROOT = os.path.dirname(os.path.dirname(os.path.abspath(__file__)))
 
 CLAIMED = {
+    "C01": dict(
+        category="model_checking",
+        text="Sparql.tla is a denotational TLA+ definition of the supported SELECT fragment (bag semantics, dataset views, group-scoped FILTER, "
+             "BIND, VALUES/UNDEF, subqueries, aggregates, acceptance of ORDER BY / LIMIT / DISTINCT). Seeded (dataset, syntax tree) pairs are "
+             "printed to text, executed by the real engine through both SELECT entry points, and TLC judges every recorded (stored dataset, "
+             "tree, rows) event against Eval; deviations are re-judged under named relaxations of the expression semantics to classify them.",
+        design_ref="DESIGN.md section 5 (C01)",
+        note="Trusted: TLC, the Python generator/printer (the tree TLC evaluates and the text the engine parses come from the same object), "
+             "lexical kind/number/rank tables computed in Python. No exhaustive state space: evidence is trace validation of sampled queries "
+             "(quick 1200, thorough 10000) over a 14-term universe. Non-definite subquery cuts and non-numeric aggregate inputs are skipped.",
+        technique="TLA+ denotational specification evaluated by TLC as oracle (trace validation of recorded query executions)",
+    ),
     "C04": dict(
         category="model_checking",
         text="TLC checks that a code-shaped model of DatasetIndex (four nested indexes with key sets, pruning, catalog) refines the "
